@@ -336,7 +336,34 @@ fn v1_upgrade(tier: Tier, seed: u64) -> Acc {
 
 // ------------------------------------------------------------ (c) manifest shortcut
 
+/// which embedded formats the manifests carry
+#[derive(Clone, Copy, Debug, PartialEq, Eq)]
+pub enum Embed {
+  V2,
+  V1,
+  /// both: `moduleGraph2` from this analyser, and a `moduleGraph1` as an older publisher rendered it (it knows
+  /// nothing of `@ts-types`, so those entries lack the types specifier); the newer format has to win
+  Both,
+}
+
 pub fn embed_module_graphs(w: &mut RegWorld, v1: bool) {
+  embed_module_graphs_as(w, if v1 { Embed::V1 } else { Embed::V2 })
+}
+
+fn strip_types_specifiers(v: &mut Value) {
+  match v {
+    Value::Object(o) => {
+      o.remove("typesSpecifier");
+      for (_, x) in o.iter_mut() {
+        strip_types_specifiers(x);
+      }
+    }
+    Value::Array(a) => a.iter_mut().for_each(strip_types_specifiers),
+    _ => {}
+  }
+}
+
+pub fn embed_module_graphs_as(w: &mut RegWorld, mode: Embed) {
   let analyzer = ParserModuleAnalyzer::default();
   for p in w.pkgs.iter_mut() {
     for v in p.versions.iter_mut() {
@@ -357,12 +384,21 @@ pub fn embed_module_graphs(w: &mut RegWorld, v1: bool) {
           mg.insert(f.path.clone(), serde_json::to_value(&info).unwrap());
         }
       }
-      if v1 {
-        v.module_graph1 = Some(Value::Object(mg).to_string());
-        v.module_graph2 = None;
-      } else {
-        v.module_graph2 = Some(Value::Object(mg).to_string());
-        v.module_graph1 = None;
+      match mode {
+        Embed::V1 => {
+          v.module_graph1 = Some(Value::Object(mg).to_string());
+          v.module_graph2 = None;
+        }
+        Embed::V2 => {
+          v.module_graph2 = Some(Value::Object(mg).to_string());
+          v.module_graph1 = None;
+        }
+        Embed::Both => {
+          let mut old = Value::Object(mg.clone());
+          strip_types_specifiers(&mut old);
+          v.module_graph2 = Some(Value::Object(mg).to_string());
+          v.module_graph1 = Some(old.to_string());
+        }
       }
     }
   }
@@ -431,16 +467,66 @@ fn shortcut(tier: Tier, seed: u64) -> Acc {
       }
       acc.count("worlds_with_wasm_in_packages");
     }
+    // `@ts-types` on an import inside a package: the types dependency only the newer embedded format carries
+    if rng.chance(1, 3) {
+      for p in plain.pkgs.iter_mut() {
+        for v in p.versions.iter_mut() {
+          if let Some(f) = v.files.iter_mut().find(|f| f.path == "/mod.ts") {
+            f.imports.push(Imp::TsTypes("./internal.ts".into(), "./sub.ts".into()));
+          }
+        }
+      }
+      acc.count("worlds_with_ts_types_in_packages");
+    }
     let mut embedded = plain.clone();
-    let v1 = rng.chance(1, 4);
-    embed_module_graphs(&mut embedded, v1);
+    let mode = *rng.pick(&[Embed::V2, Embed::V2, Embed::V1, Embed::Both, Embed::Both]);
+    let v1 = mode == Embed::V1;
+    embed_module_graphs_as(&mut embedded, mode);
+    acc.count(&format!("embedded_format:{:?}", mode));
     let kind = *rng.pick(&[GraphKind::All, GraphKind::CodeOnly]);
-    let ctx = json!({"world": plain.to_json(), "embedded_format": if v1 { "moduleGraph1" } else { "moduleGraph2" }, "kind": format!("{:?}", kind)});
+    // one registry file whose served bytes no longer match the manifest checksum, on every path (a conforming
+    // loader rejects it whenever it is handed the checksum): both renderings must report it the same way
+    let tampered: Option<String> = if rng.chance(1, 4) {
+      let files: Vec<String> = plain
+        .pkgs
+        .iter()
+        .flat_map(|p| p.versions.iter().flat_map(move |v| v.files.iter().map(move |f| pkg_file_url(&p.name, &v.version, &f.path))))
+        .collect();
+      if files.is_empty() { None } else { Some(rng.pick(&files).clone()) }
+    } else {
+      None
+    };
+    // a loader that reports cache info (a resource is known once a load of it completed)
+    let cache_info = rng.chance(1, 3);
+    let tamper_bytes = |loader: &mut ScriptedLoader| {
+      if let Some(t) = &tampered {
+        let mut bytes = match loader.world.remote.get(t) {
+          Some(Resp::Module { content, .. }) => content.clone(),
+          _ => vec![],
+        };
+        bytes.extend(b"\n/* changed after publishing */");
+        loader.tamper.insert(t.clone(), bytes);
+      }
+      loader.cache_info = cache_info;
+    };
+    if tampered.is_some() {
+      acc.count("worlds_with_a_file_not_matching_its_manifest_checksum");
+    }
+    if cache_info {
+      acc.count("worlds_with_cache_info");
+    }
+    let fmt_name = match mode {
+      Embed::V1 => "moduleGraph1",
+      Embed::V2 => "moduleGraph2",
+      Embed::Both => "moduleGraph1+2",
+    };
+    let ctx = json!({"world": plain.to_json(), "embedded_format": fmt_name, "kind": format!("{:?}", kind), "tampered": tampered, "cache_info": cache_info});
     acc.eval();
     let reference = {
       // same options as the compared builds
       let world = plain.to_world();
-      let loader = ScriptedLoader::new(&world);
+      let mut loader = ScriptedLoader::new(&world);
+      tamper_bytes(&mut loader);
       let mut graph = ModuleGraph::new(kind);
       let cfg = BuildCfg {
         kind,
@@ -479,7 +565,8 @@ fn shortcut(tier: Tier, seed: u64) -> Acc {
           }
         }
       }
-      let loader = ScriptedLoader::new(&world);
+      let mut loader = ScriptedLoader::new(&world);
+      tamper_bytes(&mut loader);
       let mut graph = ModuleGraph::new(kind);
       let cfg = BuildCfg {
         kind,
@@ -512,6 +599,24 @@ fn shortcut(tier: Tier, seed: u64) -> Acc {
         acc.count(if cached { "pairs:cached" } else { "pairs:uncached" });
       }
       let view = graph_view(&graph);
+      if let Some(t) = &tampered {
+        // the file's sources are not the ones the embedded information was produced from, so identity is not
+        // demanded; but bytes that do not match the manifest checksum must never be admitted, whichever
+        // rendering the manifest has
+        for (g, which) in [(&reference, "parsed"), (&graph, "embedded")] {
+          if let Some(m) = g.get(&url(t))
+            && !matches!(m, deno_graph::Module::External(_))
+          {
+            acc.violation(
+              format!("shortcut/content-not-matching-manifest-checksum-admitted/{}/{}/{}", which, if cached { "cached" } else { "uncached" }, fmt_name),
+              format!("{} is served with bytes that do not hash to the manifest checksum, yet it is a module of the graph", t),
+              ctx.clone(),
+            );
+          }
+        }
+        acc.count("tampered_pairs_checked");
+        continue;
+      }
       if view != reference_view {
         let d = first_diff(&reference_view, &view, String::new()).unwrap_or_default();
         let what = if d.contains("/redirects") {
@@ -530,7 +635,7 @@ fn shortcut(tier: Tier, seed: u64) -> Acc {
             "shortcut≠parsing/{}/{}/{}",
             what,
             if cached { "cached" } else { "uncached" },
-            if v1 { "moduleGraph1" } else { "moduleGraph2" }
+            fmt_name
           ),
           format!("first difference at {}", d),
           ctx.clone(),
